@@ -201,10 +201,10 @@ template <class T> static void plane_matrix ()
     const I3 PP[] = {{0, 0, 0}, {1, -2, 2}, {-1, 0, 2}};
     const I3 TR[] = {{0, 0, 0}, {1, -2, 3}};
     const double SC[][3] = {{1, 1, 1}, {2, 2, 2}, {0.5, 0.5, 0.5}, {1, 2, 4}, {2, 0.5, 1}, {-1, 1, 1}, {1, -2, 1}, {-1, -1, -1}};
-    std::atomic<ll> cases (0), refl (0), aniso (0), axisn (0), sidechk (0), proj (0);
+    std::atomic<ll> cases (0), refl (0), aniso (0), axisn (0), sidechk (0), proj (0), sideproj (0);
     std::mutex mm; double worst = 0;
     bool ok = parallel_chunks (D.size () * 3, 2, [&] (uint64_t lo, uint64_t hi, unsigned) {
-        ll k_c = 0, k_r = 0, k_a = 0, k_ax = 0, k_s = 0, k_pj = 0; double lw = 0;
+        ll k_c = 0, k_r = 0, k_a = 0, k_ax = 0, k_s = 0, k_pj = 0, k_sp = 0; double lw = 0;
         for (uint64_t i = lo; i < hi; ++i)
         {
             I3 pp = PP[i / D.size ()], nn = D[i % D.size ()];
@@ -268,16 +268,43 @@ template <class T> static void plane_matrix ()
                                 if (!(dp > 0) || !(dm < 0)) R ().fail ("Plane3*Matrix44.side-preserved", in (), "+" + s (td) + " / -" + s (td), s (dp) + " / " + s (dm));
                             }
                         }
+                        if (!reflection && pj)
+                        {
+                            // Projective M with det(M) > 0 and homogeneous coordinate w > 0 on every point involved (the
+                            // library's three plane points have |x_i| <= |d| + 1.2 <= 6, so w >= 1 - 12/64): the orientation
+                            // of a point quadruple is multiplied by det(M) / (w0 w1 w2 w3) > 0, hence the side is kept.
+                            // True off-plane distance of the image of pp +- nn: from the plane through the three exact images.
+                            LD m4[4][4];
+                            for (int r = 0; r < 4; ++r) for (int c = 0; c < 4; ++c) m4[r][c] = (LD) M[r][c];
+                            LD det = 0;
+                            {
+                                static const int PM[24][4] = {{0,1,2,3},{0,1,3,2},{0,2,1,3},{0,2,3,1},{0,3,1,2},{0,3,2,1},{1,0,2,3},{1,0,3,2},{1,2,0,3},{1,2,3,0},{1,3,0,2},{1,3,2,0},
+                                                              {2,0,1,3},{2,0,3,1},{2,1,0,3},{2,1,3,0},{2,3,0,1},{2,3,1,0},{3,0,1,2},{3,0,2,1},{3,1,0,2},{3,1,2,0},{3,2,0,1},{3,2,1,0}};
+                                for (auto& pm : PM)
+                                {
+                                    int inv = 0; for (int a = 0; a < 4; ++a) for (int b = a + 1; b < 4; ++b) if (pm[a] > pm[b]) ++inv;
+                                    det += ((inv & 1) ? -1 : 1) * m4[0][pm[0]] * m4[1][pm[1]] * m4[2][pm[2]] * m4[3][pm[3]];
+                                }
+                            }
+                            L3 Nn = cross (im[1] - im[0], im[2] - im[0]);
+                            LD tp = fabsl (dot (Nn, im[3] - im[0])) / len (Nn), tm = fabsl (dot (Nn, im[4] - im[0])) / len (Nn);
+                            if (det > 0 && std::min (tp, tm) > 2 * tol)
+                            {
+                                ++k_sp;
+                                LD dp = dot (qn, im[3]) - (LD) q.distance, dm = dot (qn, im[4]) - (LD) q.distance;
+                                if (!(dp > 0) || !(dm < 0)) R ().fail ("Plane3*Matrix44.side-preserved.projective", in (), "+" + s (tp) + " / -" + s (tm), s (dp) + " / " + s (dm));
+                            }
+                        }
                         ++k_c; if (reflection) ++k_r; if (smax != smin) ++k_a; if (l1 (nn) == 1) ++k_ax;
                     }
         }
-        cases += k_c; refl += k_r; aniso += k_a; axisn += k_ax; sidechk += k_s; proj += k_pj;
+        cases += k_c; refl += k_r; aniso += k_a; axisn += k_ax; sidechk += k_s; proj += k_pj; sideproj += k_sp;
         std::lock_guard<std::mutex> g (mm); worst = std::max (worst, lw);
     });
     R ().add ("states", cases); R ().add ("evaluations", cases); R ().add ("transitions", cases.load () * 5);
     R ().cls ("plane-matrix.reflection", refl); R ().cls ("plane-matrix.non-uniform-scale", aniso);
     R ().cls ("plane-matrix.axis-aligned-normal", axisn); R ().cls ("plane-matrix.side-checked", sidechk);
-    R ().cls ("plane-matrix.projective-last-column", proj);
+    R ().cls ("plane-matrix.projective-last-column", proj); R ().cls ("plane-matrix.side-checked.projective(det>0,w>0)", sideproj);
     R ().note_max (std::string ("worst plane*M containment residual / tolerance, ") + tname<T> (), worst);
     if (ok) R ().stage_done ("510 planes x 24 rotations x 2 translations x 8 scales (3 of them reflections)");
     else R ().stage_partial ("deadline");
